@@ -420,6 +420,11 @@ func CheckStep(st Step) []Obs {
 		if !failed {
 			if !valid {
 				add("C04", "stale_lease_success", fmt.Sprintf("%s with lease %q (%s) succeeded", op.Kind, lease, cls), map[string]string{"lease_class": cls})
+				if op.Kind == KExtend && strings.Contains(cls, "expired") {
+					// an abandoned message must be offered again once its lease has run out: an
+					// extend accepted after the deadline hides it for another period
+					add("C05", "expired_lease_revived", fmt.Sprintf("extend with lease %q (%s) succeeded: the message is due since its lease ran out and is hidden again", lease, cls), nil)
+				}
 				// whatever it did is judged below as unexpected change
 			} else {
 				exp[row.ID] = applyLease(op.Kind, row)
